@@ -247,7 +247,9 @@ pub fn main_protocol(
     run: impl Fn(&str, &T) -> T,
 ) {
     let args = parse_args();
-    std::panic::set_hook(Box::new(|_| {}));
+    if std::env::var_os("VERIF_SHOW_PANIC").is_none() {
+        std::panic::set_hook(Box::new(|_| {}));
+    }
     let out = std::io::stdout();
     let mut out = std::io::BufWriter::new(out.lock());
     match args.mode.as_str() {
